@@ -43,6 +43,18 @@ func c02Graph(c *c02Case) *gen.Graph {
 	}
 	for i := 1; i <= c.Starts; i++ {
 		s := g.Add(gen.Start, fmt.Sprintf("s%d", i), "")
+		if c.Shape == "forkend" {
+			// a fork whose first branch ends at once while the second waits at a task
+			f := g.Add(gen.And, fmt.Sprintf("fk%d", i), "")
+			e0 := g.Add(gen.End, fmt.Sprintf("endf%d", i), "")
+			a := g.Add(gen.Task, fmt.Sprintf("a%d", i), "")
+			e := g.Add(gen.End, fmt.Sprintf("end%d", i), "")
+			g.Connect(s, f, nil)
+			g.Connect(f, e0, nil)
+			g.Connect(f, a, nil)
+			g.Connect(a, e, nil)
+			continue
+		}
 		if c.Shape == "short" && i == 1 {
 			e := g.Add(gen.End, "end1", "")
 			g.Connect(s, e, nil)
@@ -63,9 +75,9 @@ func c02Graph(c *c02Case) *gen.Graph {
 func c02Cases(tier string, seed uint64) []fw.Case {
 	var cs []fw.Case
 	for starts := 1; starts <= 3; starts++ {
-		shapes := []string{"ind", "join", "short"}
+		shapes := []string{"ind", "join", "short", "forkend"}
 		if starts == 1 {
-			shapes = []string{"ind", "short"}
+			shapes = []string{"ind", "short", "forkend"}
 		}
 		for _, shape := range shapes {
 			for _, mode := range []string{"all", "each"} {
